@@ -395,3 +395,15 @@ package tars
 //@   allocates
 //@   ensures [C01] len(f.postSfs) == old(len(f.postSfs)) + 1 && f.postSfs[old(len(f.postSfs))] == sf
 //@   ensures [C01] forall i {f.postSfs[i]} :: (0 <= i && i < old(len(f.postSfs))) ==> f.postSfs[i] == old(f.postSfs[i])
+
+// addAliveEp (C15: a probed endpoint returns to rotation): the endpoint is entered into the active list and handed to
+// all three selectors - round-robin, consistent hash, mod hash - and to nothing else (three Add calls, each with ep).
+//@ func (*endpointManager).addAliveEp
+//@   requires e != nil && e.epLock != nil && e.activeEpRoundRobin != nil && e.activeEpConHash != nil && e.activeEpModHash != nil
+//@   noframe
+//@   allocates
+//@   site .Add#0 assert [C15] $0 == e.activeEpRoundRobin && $1 == ep
+//@   site .Add#1 assert [C15] $0 == e.activeEpConHash && $1 == ep
+//@   site .Add#2 assert [C15] $0 == e.activeEpModHash && $1 == ep
+//@   sites .Add = 3
+//@   ensures [C15] len(e.activeEp) == old(len(e.activeEp)) + 1
